@@ -12,7 +12,7 @@ ID = "C16"
 READY = True
 LEVEL = "exploration"
 WORKERS = {"quick": 8, "thorough": 16}
-BUDGET = {"quick": 75, "thorough": 600}
+BUDGET = {"quick": 48, "thorough": 600}
 MIN_NONTRIVIAL = {"quick": 150, "thorough": 3000}
 REQUIRED_HOOKS = ["schedule", "scheduling-point", "switch-inside-library-code", "stress-evaluation", "single-preemption-schedule"]
 RULE = (
